@@ -9,7 +9,6 @@ import (
 // InitGenesis initializes the capability module's state from a provided genesis
 // state.
 func InitGenesis(ctx sdk.Context, k keeper.Keeper, genState types.GenesisState) {
-	var auctionID, userBidID uint64
 	for _, item := range genState.Auction {
 		k.SetGenAuction(ctx, item)
 	}
@@ -21,8 +20,8 @@ func InitGenesis(ctx sdk.Context, k keeper.Keeper, genState types.GenesisState) 
 	}
 
 	k.SetParams(ctx, genState.Params)
-	k.SetAuctionID(ctx, auctionID)
-	k.SetUserBidID(ctx, userBidID)
+	k.SetAuctionID(ctx, genState.AuctionId)
+	k.SetUserBidID(ctx, genState.UserBiddingID)
 }
 
 // ExportGenesis returns the capability module's exported genesis.
